@@ -31,10 +31,12 @@ def msmSumNat (bases : List G) (ks : List Nat) : G := natPairSum (bases.zip ks)
 def InRange (cfg : Cfg) (k : List Nat) : Prop :=
   k.length = cfg.limbs ∧ WF k ∧ value k < 2 ^ cfg.numBits
 
-/-- correctness of the inner `msm_bigint` on the scalar domain `P` (hypothesis of this part; the
-    instance `P = InRange cfg` is what part A proves) -/
+/-- correctness of the inner `msm_bigint` on the scalar domain `P`, for inputs whose common length is a
+    `usize` (hypothesis of this part; the instance `P = InRange cfg` is what part A proves; the length
+    bound holds for every Rust slice) -/
 structure MsmOK (G : Type) [AddCommGroup G] (cfg : Cfg) (P : List Nat → Prop) : Prop where
   spec : ∀ (bases : List G) (ks : List (List Nat)), (∀ k ∈ ks, P k) →
+    min bases.length ks.length < 2 ^ 64 →
     msmBigint cfg bases ks = .ok (msmSum bases ks)
 
 @[simp] theorem pairSum_nil : pairSum ([] : List (G × List Nat)) = 0 := rfl
@@ -169,16 +171,17 @@ variable {G : Type} [AddCommGroup G] {cfg : Cfg} {P : List Nat → Prop}
 theorem msmChunksLoop_spec (ok : MsmOK G cfg P) (step : Nat) :
     ∀ (n : Nat) (bases : List G) (scalars : List Nat) (result : G),
       (∀ k ∈ scalars, P (cfg.intoBigint k)) → scalars.length ≤ n * step →
+      (step < 2 ^ 64 ∨ scalars.length < 2 ^ 64) →
       msmChunksLoop cfg step n bases scalars result
         = .ok (result + msmSum bases (scalars.map cfg.intoBigint)) := by
   intro n
   induction n with
   | zero =>
-    intro bases scalars result _ hl
+    intro bases scalars result _ hl _
     have : scalars = [] := List.eq_nil_of_length_eq_zero (by omega)
     subst this; simp [msmChunksLoop]
   | succ n ih =>
-    intro bases scalars result hP hl
+    intro bases scalars result hP hl hb
     have h1 : ∀ k ∈ (scalars.take step).map cfg.intoBigint, P k := by
       intro k hk
       obtain ⟨k', hk', rfl⟩ := List.mem_map.1 hk
@@ -187,15 +190,20 @@ theorem msmChunksLoop_spec (ok : MsmOK G cfg P) (step : Nat) :
       fun k hk => hP k (List.mem_of_mem_drop hk)
     have h3 : (scalars.drop step).length ≤ n * step := by
       rw [List.length_drop]; rw [Nat.succ_mul] at hl; omega
-    rw [msmChunksLoop, ok.spec _ _ h1, obind_ok_eq, ih _ _ _ h2 h3,
+    have h4 : min (bases.take step).length ((scalars.take step).map cfg.intoBigint).length < 2 ^ 64 := by
+      simp only [List.length_take, List.length_map]; omega
+    have h5 : step < 2 ^ 64 ∨ (scalars.drop step).length < 2 ^ 64 := by
+      rw [List.length_drop]; omega
+    rw [msmChunksLoop, ok.spec _ _ h1 h4, obind_ok_eq, ih _ _ _ h2 h3 h5,
       msmSum_take_drop step bases (scalars.map _), List.map_take, List.map_drop, add_assoc]
 
 theorem msmChunksWith_ok (ok : MsmOK G cfg P) (step : Nat) (hstep : 0 < step) (bases : List G)
-    (ks : List Nat) (hP : ∀ k ∈ ks, P (cfg.intoBigint k)) (hlen : ks.length ≤ bases.length) :
+    (ks : List Nat) (hP : ∀ k ∈ ks, P (cfg.intoBigint k)) (hlen : ks.length ≤ bases.length)
+    (hb : step < 2 ^ 64 ∨ ks.length < 2 ^ 64) :
     msmChunksWith step cfg bases ks
       = .ok (msmSum (bases.drop (bases.length - ks.length)) (ks.map cfg.intoBigint)) := by
   unfold msmChunksWith
-  rw [if_neg (by omega), msmChunksLoop_spec ok step _ _ _ _ hP (le_divCeil_mul _ _ hstep), zero_add]
+  rw [if_neg (by omega), msmChunksLoop_spec ok step _ _ _ _ hP (le_divCeil_mul _ _ hstep) hb, zero_add]
 
 theorem msmChunksWith_panic (step : Nat) (bases : List G) (ks : List Nat)
     (hlen : bases.length < ks.length) : msmChunksWith step cfg bases ks = .panic := by
@@ -280,9 +288,13 @@ theorem Chunked.new_inv (bufSize : Nat) : Chunked.Inv P (Chunked.new bufSize : C
   simp [Chunked.Inv, Chunked.new]
 
 theorem Chunked.add_inv (ok : MsmOK G cfg P) {s : Chunked G} {total : G} (h : Chunked.Inv P s total)
-    (b : G) (k : List Nat) (hk : P k) :
-    ∃ s', s.add cfg b k = .ok s' ∧ s'.bufSize = s.bufSize ∧ Chunked.Inv P s' (total + value k • b) := by
+    (b : G) (k : List Nat) (hk : P k) (hlen : s.scalarsBuffer.length + 1 < 2 ^ 64) :
+    ∃ s', s.add cfg b k = .ok s' ∧ s'.bufSize = s.bufSize ∧
+      s'.scalarsBuffer.length ≤ s.scalarsBuffer.length + 1 ∧
+      Chunked.Inv P s' (total + value k • b) := by
   obtain ⟨hl, hP, hs⟩ := h
+  have hmin : min (s.basesBuffer ++ [b]).length (s.scalarsBuffer ++ [k]).length < 2 ^ 64 := by
+    simp only [List.length_append, List.length_cons, List.length_nil]; omega
   have hP' : ∀ k' ∈ s.scalarsBuffer ++ [k], P k' := by
     intro k' hk'
     rcases List.mem_append.1 hk' with h | h
@@ -291,12 +303,12 @@ theorem Chunked.add_inv (ok : MsmOK G cfg P) {s : Chunked G} {total : G} (h : Ch
   unfold Chunked.add
   by_cases hfull : (s.scalarsBuffer ++ [k]).length = s.bufSize
   · simp only [hfull, if_true]
-    rw [ok.spec _ _ hP', obind_ok_eq]
-    refine ⟨_, rfl, rfl, by simp, by simp, ?_⟩
+    rw [ok.spec _ _ hP' hmin, obind_ok_eq]
+    refine ⟨_, rfl, rfl, by simp, by simp, by simp, ?_⟩
     simp only [msmSum_nil_left, add_zero]
     rw [msmSum_snoc _ _ _ _ hl, ← hs, add_assoc]
   · simp only [hfull, if_false]
-    refine ⟨_, rfl, rfl, by simp [hl], hP', ?_⟩
+    refine ⟨_, rfl, rfl, by simp, by simp [hl], hP', ?_⟩
     simp only
     rw [msmSum_snoc _ _ _ _ hl, ← hs, add_assoc]
 
@@ -322,7 +334,8 @@ theorem Chunked.add_buffer_lt {s s' : Chunked G} (b : G) (k : List Nat)
     omega
 
 theorem Chunked.finalize_inv (ok : MsmOK G cfg P) {s : Chunked G} {total : G}
-    (h : Chunked.Inv P s total) : s.finalize cfg = .ok total := by
+    (h : Chunked.Inv P s total) (hlen : s.scalarsBuffer.length < 2 ^ 64) :
+    s.finalize cfg = .ok total := by
   obtain ⟨hl, hP, hs⟩ := h
   unfold Chunked.finalize
   by_cases he : s.scalarsBuffer.isEmpty
@@ -330,35 +343,40 @@ theorem Chunked.finalize_inv (ok : MsmOK G cfg P) {s : Chunked G} {total : G}
     rw [List.isEmpty_iff] at he
     rw [he] at hs; simpa using hs
   · simp only [he, Bool.not_false, if_true]
-    rw [ok.spec _ _ hP, obind_ok_eq, hs]
+    rw [ok.spec _ _ hP (by omega), obind_ok_eq, hs]
 
 theorem Chunked.addAll_inv (ok : MsmOK G cfg P) :
     ∀ (adds : List (G × List Nat)) (s : Chunked G) (total : G), Chunked.Inv P s total →
-      (∀ a ∈ adds, P a.2) →
+      (∀ a ∈ adds, P a.2) → s.scalarsBuffer.length + adds.length < 2 ^ 64 →
       ∃ s', Chunked.addAll cfg s adds = .ok s' ∧ s'.bufSize = s.bufSize ∧
+        s'.scalarsBuffer.length ≤ s.scalarsBuffer.length + adds.length ∧
         Chunked.Inv P s' (total + pairSum adds) := by
   intro adds
   induction adds with
-  | nil => intro s total h _; exact ⟨s, rfl, rfl, by simpa using h⟩
+  | nil => intro s total h _ _; exact ⟨s, rfl, rfl, by simp, by simpa using h⟩
   | cons a adds ih =>
-    intro s total h hP
+    intro s total h hP hlen
     obtain ⟨b, k⟩ := a
-    obtain ⟨s₁, h₁, hb₁, hi₁⟩ := Chunked.add_inv ok h b k (hP (b, k) (by simp))
-    obtain ⟨s₂, h₂, hb₂, hi₂⟩ := ih s₁ _ hi₁ (fun a ha => hP a (by simp [ha]))
-    refine ⟨s₂, ?_, by rw [hb₂, hb₁], ?_⟩
+    rw [List.length_cons] at hlen
+    obtain ⟨s₁, h₁, hb₁, hl₁, hi₁⟩ := Chunked.add_inv ok h b k (hP (b, k) (by simp)) (by omega)
+    obtain ⟨s₂, h₂, hb₂, hl₂, hi₂⟩ := ih s₁ _ hi₁ (fun a ha => hP a (by simp [ha])) (by omega)
+    refine ⟨s₂, ?_, by rw [hb₂, hb₁], by rw [List.length_cons]; omega, ?_⟩
     · simp only [Chunked.addAll, h₁, obind_ok_eq, h₂]
     · simpa [add_assoc] using hi₂
 
 theorem Chunked.run_go_spec (ok : MsmOK G cfg P) (adds : List (G × List Nat)) (s : Chunked G)
-    (total : G) (h : Chunked.Inv P s total) (hP : ∀ a ∈ adds, P a.2) :
+    (total : G) (h : Chunked.Inv P s total) (hP : ∀ a ∈ adds, P a.2)
+    (hlen : s.scalarsBuffer.length + adds.length < 2 ^ 64) :
     Chunked.run.go cfg s adds = .ok (total + pairSum adds) := by
-  obtain ⟨s', h₁, _, hi⟩ := Chunked.addAll_inv ok adds s total h hP
-  rw [Chunked.run_go_eq, h₁, obind_ok_eq, Chunked.finalize_inv ok hi]
+  obtain ⟨s', h₁, _, hl, hi⟩ := Chunked.addAll_inv ok adds s total h hP hlen
+  rw [Chunked.run_go_eq, h₁, obind_ok_eq, Chunked.finalize_inv ok hi (by omega)]
 
 theorem Chunked.run_ok (ok : MsmOK G cfg P) (bufSize : Nat) (adds : List (G × List Nat))
-    (hP : ∀ a ∈ adds, P a.2) : Chunked.run cfg bufSize adds = .ok (pairSum adds) := by
+    (hP : ∀ a ∈ adds, P a.2) (hlen : adds.length < 2 ^ 64) :
+    Chunked.run cfg bufSize adds = .ok (pairSum adds) := by
   unfold Chunked.run
-  rw [Chunked.run_go_spec ok adds _ 0 (Chunked.new_inv bufSize) hP, zero_add]
+  rw [Chunked.run_go_spec ok adds _ 0 (Chunked.new_inv bufSize) hP (by simpa [Chunked.new] using hlen),
+    zero_add]
 
 end Chunked
 
@@ -369,13 +387,15 @@ variable {G : Type} [AddCommGroup G] {cfg : Cfg} {P : List Nat → Prop}
 
 /-- `msm_bigint` on a list of pairs does not depend on the order of the pairs -/
 theorem msmBigint_perm (ok : MsmOK G cfg P) {l l' : List (G × List Nat)} (h : l.Perm l')
-    (hP : ∀ a ∈ l, P a.2) :
+    (hP : ∀ a ∈ l, P a.2) (hlen : l.length < 2 ^ 64) :
     msmBigint cfg (l.map (·.1)) (l.map (·.2)) = msmBigint cfg (l'.map (·.1)) (l'.map (·.2)) := by
   have h1 : ∀ k ∈ l.map (·.2), P k := by
     intro k hk; obtain ⟨a, ha, rfl⟩ := List.mem_map.1 hk; exact hP a ha
   have h2 : ∀ k ∈ l'.map (·.2), P k := by
     intro k hk; obtain ⟨a, ha, rfl⟩ := List.mem_map.1 hk; exact hP a (h.mem_iff.2 ha)
-  rw [ok.spec _ _ h1, ok.spec _ _ h2, msmSum_unzip, msmSum_unzip, pairSum_perm h]
+  have hl' := h.length_eq
+  rw [ok.spec _ _ h1 (by simp only [List.length_map]; omega),
+    ok.spec _ _ h2 (by simp only [List.length_map]; omega), msmSum_unzip, msmSum_unzip, pairSum_perm h]
 
 end Perm
 
@@ -530,22 +550,25 @@ theorem HashMapAcc.new_inv (bufSize : Nat) : HashMapAcc.Inv cfg (HashMapAcc.new 
 omit [DecidableEq G] in
 /-- the flush: `msm_bigint` over the map's keys and values -/
 theorem HashMapAcc.flush_ok (ok : MsmOK G cfg P) (hrB : cfg.r ≤ B ^ cfg.limbs)
-    (hP : ∀ v < cfg.r, P (cfg.intoBigint v)) (buf : List (G × Nat)) (h : ∀ e ∈ buf, e.2 < cfg.r) :
+    (hP : ∀ v < cfg.r, P (cfg.intoBigint v)) (buf : List (G × Nat)) (h : ∀ e ∈ buf, e.2 < cfg.r)
+    (hlen : buf.length < 2 ^ 64) :
     msmBigint cfg (buf.map (·.1)) (buf.map (fun e => cfg.intoBigint e.2)) = .ok (natPairSum buf) := by
   rw [ok.spec, msmSum_buffer cfg buf (fun e he => lt_of_lt_of_le (h e he) hrB)]
-  intro k hk
-  obtain ⟨e, he, rfl⟩ := List.mem_map.1 hk
-  exact hP _ (h e he)
+  · intro k hk
+    obtain ⟨e, he, rfl⟩ := List.mem_map.1 hk
+    exact hP _ (h e he)
+  · simp only [List.length_map]; omega
 
 omit [DecidableEq G] in
 /-- the flush does not depend on the iteration order of the map -/
 theorem HashMapAcc.flush_perm (ok : MsmOK G cfg P) (hrB : cfg.r ≤ B ^ cfg.limbs)
     (hP : ∀ v < cfg.r, P (cfg.intoBigint v)) {buf buf' : List (G × Nat)} (hp : buf.Perm buf')
-    (h : ∀ e ∈ buf, e.2 < cfg.r) :
+    (h : ∀ e ∈ buf, e.2 < cfg.r) (hlen : buf.length < 2 ^ 64) :
     msmBigint cfg (buf'.map (·.1)) (buf'.map (fun e => cfg.intoBigint e.2))
       = msmBigint cfg (buf.map (·.1)) (buf.map (fun e => cfg.intoBigint e.2)) := by
-  rw [HashMapAcc.flush_ok ok hrB hP buf h,
-    HashMapAcc.flush_ok ok hrB hP buf' (fun e he => h e (hp.mem_iff.2 he)), natPairSum_perm hp]
+  rw [HashMapAcc.flush_ok ok hrB hP buf h hlen,
+    HashMapAcc.flush_ok ok hrB hP buf' (fun e he => h e (hp.mem_iff.2 he)) (by rw [← hp.length_eq]; exact hlen),
+    natPairSum_perm hp]
 
 theorem HashMapAcc.add_inv (ok : MsmOK G cfg P) (hr0 : 0 < cfg.r) (hrB : cfg.r ≤ B ^ cfg.limbs)
     (hP : ∀ v < cfg.r, P (cfg.intoBigint v)) {s : HashMapAcc G} {total : G}
